@@ -59,8 +59,9 @@ if h.NilA == nil { h.NilA = 0 }
 h.NilA = h.NilA.(int) + KK
 println("nn#", h.NilN, len(h.NilL), h.NilL[0], h.NilM["k"], len(h.NilM), h.NilS, int(h.NilF*2), h.NilC.Get(), h.NilA.(int))
 `, nil},
+		// (&h.NilN, the address of an imported variable of a non-general kind, is a known defect: knownAddr)
 		{"native-nil-var-func-and-pointer", "func Visit#(d int) int { h.NilN += d; h.NilL = append(h.NilL, d); return h.NilN*100 + len(h.NilL) }\n",
-			"pn# := &h.NilN\n*pn# += CC\nprintln(\"nc#\", Visit#(h.Input()), Visit#(KK), *pn#)\n", nil},
+			"pl# := &h.NilL\n*pl# = append(*pl#, CC)\npm# := &h.NilM\nif *pm# == nil { *pm# = map[string]int{} }\n(*pm#)[\"p\"] += h.Input() + 1\npc# := &h.NilC\npc#.N += CC\nprintln(\"nc#\", Visit#(h.Input()), Visit#(KK), len(*pl#), h.NilM[\"p\"], h.NilC.N)\n", nil},
 		{"native-nil-var-goroutine", "", "dn# := make(chan int)\ngo func() { h.NilN += h.Input() + KK; h.NilS += \"g\"; dn# <- 1 }()\n<-dn#\nprintln(\"ng#\", h.NilN, h.NilS)\n", nil},
 		{"native-nil-var-callback", "", "h.Each(CC, func(i int) { h.NilN += i + h.Input(); h.NilL = append(h.NilL, i) })\nprintln(\"nb#\", h.NilN, len(h.NilL))\n", nil},
 		{"native-ptr-vars-read", "", "println(\"pr#\", h.PtrN, len(h.PtrL), h.PtrM[\"a\"], len(h.PtrM), h.PtrS, h.PtrN+h.Input())\n", nil},
@@ -185,9 +186,29 @@ func genHost(r *proto.Rand) run.Host {
 	return h
 }
 
+// knownAddr: a defect of the frozen tree the generator steps around, replayed on every check.
+const knownAddr = "address-of-imported-variable-host-panic"
+const knownAddrProgram = "package main\n\nimport \"h\"\n\nfunc main() {\n\tp := &h.PtrN\n\t*p += 7\n\tprintln(*p, h.PtrN)\n}\n"
+
+func replayKnownAddr(c *hx.Ctx) {
+	cs := run.Case{Kind: "program", Files: map[string]string{"main.go": knownAddrProgram}, HostInit: run.Host{N: 5}}
+	a, err := run.Build(cs)
+	bad := ""
+	if err != nil {
+		bad = "build error: " + err.Error()
+	} else if o := a.RunOnce(run.Input{}, nil); o.Panic != "" || o.Err != "" || o.Printed != "12 12\n" || a.Host().N != 12 {
+		bad = o.String() + " host: " + a.Host().String()
+	}
+	if bad != "" {
+		c.Res.AddBreak(proto.Break{Kind: "property", Name: "runs-panic-into-host", Finding: c.Known(knownAddr), Case: "C10 case " + cs.JSON(),
+			Human: knownAddrProgram + "// native package h declares \"PtrN\": &hostN (hostN == 5)", Impl: bad, Model: "prints 12 12, hostN == 12"})
+	}
+}
+
 // stateStream is the "state across runs" stream of the check.
-func stateStream(c *hx.Ctx) error {
+func stateStream(c *hx.Ctx) (raceSample []run.Case, err error) {
 	res := c.Res
+	replayKnownAddr(c)
 	nCases := c.N(600, 5000)
 	failures := 0
 	for i := 0; i < nCases; i++ {
@@ -206,6 +227,9 @@ func stateStream(c *hx.Ctx) error {
 			var s snippet
 			if isProg {
 				s = progSnippet(c.R, j)
+				if s.kind == "defer-recover" { // ends the run early for some inputs (known C01 finding named-result-set-after-recover): the reference semantics of the host variables would be off
+					continue
+				}
 			} else {
 				s = tplSnippet(c.R, j)
 				if s.kind == "macro" { // declares a macro: not inside the macro Body
@@ -267,8 +291,31 @@ func stateStream(c *hx.Ctx) error {
 		if !r.Bad() {
 			r = run.Run(cs)
 		}
+		// generated state code runs to its end: a run and its oracle that fail alike would compare
+		// equal and test nothing
+		if !r.Bad() {
+			ending := ""
+			if isProg {
+				ending = sn[len(sn)-1].kind
+			}
+			for k, o := range r.Got {
+				ok := o.Err == ""
+				switch ending {
+				case "end-panic":
+					ok = strings.Contains(o.Err, "boom")
+				case "end-runtime-error":
+					ok = strings.Contains(o.Err, "index out of range")
+				}
+				if !ok {
+					res.AddBreak(proto.Break{Kind: "property", Name: "generated-state-code-does-not-run-to-its-end", Case: "C10 case " + cs.JSON(),
+						Human: fmt.Sprint(cs.Files), Impl: fmt.Sprintf("run %d: %s", k, o), Model: "ending " + ending + ": no other error"})
+					failures++
+					break
+				}
+			}
+		}
 		if r.BuildErr != "" {
-			return fmt.Errorf("generated %s (state stream) does not build: %s\n%v", cs.Kind, r.BuildErr, cs.Files)
+			return nil, fmt.Errorf("generated %s (state stream) does not build: %s\n%v", cs.Kind, r.BuildErr, cs.Files)
 		}
 		res.Count("state:"+cs.Kind+":"+cs.JSON(), len(cs.Inputs) > 1)
 		for _, s := range sn {
@@ -288,6 +335,9 @@ func stateStream(c *hx.Ctx) error {
 		}
 		if extends {
 			res.Hist("state:template-extends-layout")
+		}
+		if len(raceSample) < c.N(0, 100) && i%7 == 0 {
+			raceSample = append(raceSample, cs)
 		}
 		if i%89 == 0 {
 			res.Sample(map[string]any{"stream": "state", "kind": cs.Kind, "runs": len(cs.Inputs), "seq": cs.Seq || cs.SharedWrites, "files": cs.Files, "first": r.Got[0], "host_want": cs.HostWant})
@@ -332,7 +382,7 @@ func stateStream(c *hx.Ctx) error {
 			}
 		}
 	}
-	return nil
+	return raceSample, nil
 }
 
 // remk recomputes the reference host state of a case whose inputs were cut.
